@@ -42,7 +42,7 @@ def cases(tier, rng, dist):
             if spec not in ("fisher", "liptak", "tippett", "negmax") and spec != COMBS[3] and spec[0] != "invn":
                 c["comb"] = "tippett"
         elif kind == "transform":
-            c["col"] = rng.randrange(n); c["tf"] = rng.choice(["affine", "cube", "exp", "half"])
+            c["col"] = rng.randrange(n); c["tf"] = rng.choice(["affine", "cube", "exp", "half", "offset60", "offset60"])
             c["a"] = rng.randint(1, 5); c["b"] = rng.randint(-7, 7)
         else:
             c["col"] = None
@@ -70,7 +70,10 @@ def cases(tier, rng, dist):
 
 
 def call(p, m, spec, plus1, dtype=float):
-    d = interned(np.array([[float(v) for v in r] for r in m]).astype(dtype))
+    if dtype is np.int64 and all(v.denominator == 1 for r in m for v in r):
+        d = interned(np.array([[int(v) for v in r] for r in m], dtype=np.int64))
+    else:
+        d = interned(np.array([[float(v) for v in r] for r in m]).astype(dtype))
     pv = interned(np.array([float(x) for x in p]))
     d0 = d.copy(); pv0 = pv.copy()
     r = list(guarded(lambda: float(NPC.npc(pv, d, make_comb(spec), plus1=plus1))))
@@ -100,8 +103,10 @@ def second(c):
     if c["kind"] == "transform":
         j = c["col"]
         f = {"affine": lambda x: c["a"] * x + c["b"], "cube": lambda x: x**3, "half": lambda x: x / 2 + Fraction(1, 3),
-             "exp": lambda x: Fraction(math.exp(float(x) / 8))}[c["tf"]]
-        return p, [[f(v) if k == j else v for k, v in enumerate(r)] for r in m], float
+             "exp": lambda x: Fraction(math.exp(float(x) / 8)), "offset60": lambda x: x + 2**60}[c["tf"]]
+        # offset60: an integer column shifted by 2^60 (ids, nanosecond time stamps): the values stay distinct as int64 although
+        # they are closer together than the float64 spacing there -- ranks are taken on the values as given
+        return p, [[f(v) if k == j else v for k, v in enumerate(r)] for r in m], (np.int64 if c["tf"] == "offset60" else float)
     return p, m, [np.int64, np.uint8, np.uint64, np.float32, np.int32][(len(c["distr"]) + len(c["p"]) + sum(map(len, c["p"]))) % 5]
 
 
